@@ -779,6 +779,10 @@ def check_converted_finite(ctx):
     inv = Inventory(prog, ctx.cg)
     divs = []
     for i in sorted(ctx.cg.reachable(roots)):
+        # conversion writes the model only: the indicator code (bemodel::energy, reached through hulc2model's post-processing or through trait-method
+        # over-approximation of the call graph) produces results, not model fields, and is C14's
+        if "energy::" in prog.fns[i].path.split("::{")[0] and prog.fns[i].crate == "bemodel":
+            continue
         divs += float_divisions(inv, prog.fns[i])
     assign_div_keys(prog, divs, "c04.finite")
     ctx.floor("c04.finite", "float divisions on the conversion path", len(divs), 14)
